@@ -244,6 +244,11 @@ func solveOneLevel(o *Obligation, prelude string, opts SolveOpts, suffix string)
 		}
 	}
 	res.Seconds = total
+	// query files of obligations that came out as expected are not kept (thousands of files of up to
+	// a megabyte each); failing ones stay for the replay record. GOVC_KEEP_SMT=1 keeps everything.
+	if ((!o.MustFail && res.Status == want) || (o.MustFail && res.Status != "unsat")) && os.Getenv("GOVC_KEEP_SMT") == "" && os.Getenv("GOVC_DEBUG") == "" {
+		os.Remove(file)
+	}
 	if cacheFile != "" && (res.Status == "unsat" || res.Status == "sat") {
 		os.MkdirAll(filepath.Dir(cacheFile), 0o755)
 		os.WriteFile(cacheFile, []byte(res.Status+"\n"+res.Solver+"\n"+res.Model), 0o644)
